@@ -154,14 +154,26 @@ impl Stitch {
                         } else {
                             return Some(entry);
                         }
-                    } else if let Some(hunk) = index_hunks.next().await {
-                        if let Some(last_apath) = hunk.last().map(|entry| entry.apath.clone()) {
-                            self.last_apath = Some(last_apath);
-                        }
-                        *buffered_entries = hunk.into_iter().peekable();
-                        continue;
                     } else {
-                        State::AfterBand(*band_id)
+                        match index_hunks.try_next().await {
+                            Ok(Some(hunk)) => {
+                                if let Some(last_apath) =
+                                    hunk.last().map(|entry| entry.apath.clone())
+                                {
+                                    self.last_apath = Some(last_apath);
+                                }
+                                *buffered_entries = hunk.into_iter().peekable();
+                                continue;
+                            }
+                            Ok(None) => State::AfterBand(*band_id),
+                            Err(err) => {
+                                // The entries of this hunk are lost, but say so rather than
+                                // silently presenting a shorter tree; then carry on with
+                                // whatever else can be read.
+                                self.monitor.error(err);
+                                continue;
+                            }
+                        }
                     }
                 }
                 State::BeforeBand(band_id) => {
